@@ -894,6 +894,8 @@ def rule_pathstate(ctx, rule="C01.pathstate"):
 
 
 def run(ctx):
+    from ..calendar_rule import rule_leap
+    ctx.attempt(rule_leap, ctx, "C01.calendar", ['typhon/files/fileset.py', 'typhon/utils/timeutils.py'])
     from .C03 import tree_rules
     from .C02 import rule_anchor
     from .C15 import rule_reset
